@@ -213,7 +213,7 @@ def k3_nostd(ctx):
 ADV_TYPES = ['C', 'S', 'T', 'Ok', 'Err', 'Some', 'None', 'Result', 'Option', 'Default', 'Debug', 'Self_', 'Box', 'Vec',
              'PhantomData', 'GuardError', 'DynamicError', 'AroundStage', 'M', 'MEvent', 'DynamicM', 'AnyMState', 'Machine',
              'State', 'Event', 'Inner', 'Ctx2', 'A1', 'X']
-ADV_VALUES = ['new', 'handle', 'name', 'into_dynamic', 'current_state', 'ok', 'err', 'default', 'clone', 'inner', 'ctx',
+ADV_VALUES = ['x_y', 'step_2', 'go_2_x', 'a_1', 'zz_top', 'b', 'new', 'handle', 'name', 'into_dynamic', 'current_state', 'ok', 'err', 'default', 'clone', 'inner', 'ctx',
               'payload', 'state', 'event', 'm', 'self_', 'new_machine', 'old_machine', 'machine', 'data', 'other', 'current',
               'fmt', 'eq', 'x', 'c', 's', 'a_data', 'state_data_a', 'into_a', 'set_a_data', 'callback_name']
 
@@ -259,8 +259,8 @@ def rename_defn(d, mapping):
 def rename_bases():
     b1 = [('name', 'M'), ('initial', 'A'), ('dynamic', True),
           ('states', [('leaf', 'A', 'D0'), ('super', 'G', None, [('leaf', 'B', None), ('leaf', 'E', 'D1'), ('initial', 'E')])]),
-          ('events', [('go', [('list', 'guards', ['g1']), ('list', 'before', ['b1']), ('list', 'around', ['w1']),
-                              ('transition', [('from', ['A']), ('to', 'G'), ('list', 'unless', ['u1'])])]),
+          ('events', [('go', [('list', 'guards', ['g1', 'g2']), ('list', 'before', ['b1']), ('list', 'around', ['w1']),
+                              ('transition', [('from', ['A']), ('to', 'G'), ('list', 'unless', ['u1', 'u2']), ('list', 'guards', ['g3'])])]),
                       ('back', [('list', 'after', ['a1']), ('transition', [('from', ['G']), ('to', 'A')])])])]
     b2 = [('name', 'M'), ('initial', 'A'), ('context', 'Ctx'), ('async', True), ('dynamic', True),
           ('states', [('leaf', 'A', None), ('leaf', 'B', 'D0')]),
@@ -272,16 +272,17 @@ def rename_bases():
 def rename_variants(ctx):
     out = []
     for bi, base in enumerate(rename_bases()):
-        roles = {'state': ['A', 'B'], 'super': ['G'] if bi == 0 else [], 'event': ['go'], 'hook': ['g1', 'w1'] if bi == 0 else ['g1'],
+        roles = {'state': ['A', 'B'], 'super': ['G'] if bi == 0 else [], 'event': ['go'], 'hook': ['g1', 'g3', 'u2', 'w1'] if bi == 0 else ['g1'],
                  'name': ['M']}
         for role, olds in roles.items():
             pool = ADV_TYPES if role in ('state', 'super', 'name') else ADV_VALUES
             if ctx.tier == 'quick':
                 rnd = random.Random('%d|%s|%d' % (ctx.seed, role, bi))
-                must = [x for x in pool if x in ('C', 'S', 'T', 'Ok', 'Err', 'Some', 'None', 'Result', 'Option', 'Default', 'new', 'handle', 'ctx', 'inner', 'into_dynamic')]
+                must = [x for x in pool if x in ('C', 'S', 'T', 'Ok', 'Err', 'Some', 'None', 'Result', 'Option', 'Default', 'new', 'handle', 'ctx', 'inner', 'into_dynamic',
+                                                 'x_y', 'step_2', 'go_2_x', 'a_1', 'zz_top', 'b')]
                 rest = [x for x in pool if x not in must]
                 pool = must + rnd.sample(rest, min(6, len(rest)))
-            for old in olds[:1] if ctx.tier == 'quick' else olds:
+            for old in (olds if role == 'hook' else olds[:1]) if ctx.tier == 'quick' else olds:
                 for new in pool:
                     if new == old:
                         continue
@@ -334,7 +335,7 @@ def k3_rename(ctx):
     for i in live:
         mi = corpus.MI(i, defs[i], skels[i])
         rnd = random.Random('%d|rename|%d' % (ctx.seed, i))
-        scripts = corpus.fam_walk(mi, rnd, 'quick')[:12] + corpus.fam_guards(mi, rnd, 'quick')[:8]
+        scripts = corpus.fam_walk(mi, rnd, 'quick')[:12] + corpus.fam_guards(mi, rnd, 'quick')[:40] + corpus.fam_around(mi, rnd, 'quick')[:8]
         if scripts:
             jobs.append((i, scripts))
     real = k2.run_scripts(binp, jobs)
